@@ -25,7 +25,7 @@ claimed["C19"] = (
 claimed["C06"] = (
     "exploration",
     "controlled schedule exploration with a stop-the-world quiescence (deadlock) monitor over yield points inserted before every statement of atp/*.go (build overlay)",
-    "The real client and the real RunATPServer run in one process over in-memory transports. A build overlay puts a yield point before every statement of atp/client.go and atp/server.go of the working tree; for each of 10 session histories every reached (point, hit<=3) is paused singly, pairs are sampled. A paused goroutine is held until a goroutine snapshot (runtime.Stack all, world stopped) shows all others blocked, then released - logical time, no sleeps. A snapshot in which every goroutine is blocked on chan/cond/mutex/WaitGroup, nothing is parked and no SDK timer is pending, while an Execute/Close has not returned, is a definite deadlock; goroutines with client frames blocked after Close are leaks. Held on the schedules explored (singles complete per history, pairs sampled).",
+    "The real client and the real RunATPServer run in one process over in-memory transports. A build overlay puts a yield point before every statement of atp/client.go and atp/server.go of the working tree; for each of 10 session histories every reached (point, hit<=3) is paused singly, pairs are sampled. A paused goroutine is held until a goroutine snapshot (runtime.Stack all, world stopped) shows all others blocked, then released - logical time, no sleeps. A snapshot in which every goroutine is blocked on chan/cond/mutex/WaitGroup, nothing is parked and no SDK timer is pending, while an Execute/Close has not returned, is a definite deadlock; goroutines with client frames blocked after Close are leaks. Also: three histories over rendezvous pipes (error-message backlogs, Close in the middle of the traffic, a slow client reader; plain and with every reached statement paused singly), where a state in which only the plugin's 60 s send timer is pending while a caller waits is a verdict (one shape of it is a known finding), and signal traffic from the step played by a scripted peer (fault-free C08 transcripts with emitted signals and late consumers) under every single pause of the client's statements. Held on the schedules explored (singles complete per history, pairs sampled).",
     "trusts runtime.Stack's goroutine states; the SDK's two timer selects are recognised by function name (a run parked there is inconclusive, never a violation); statement-granularity single/pair pauses only",
     "DESIGN.md §1, §3 C06",
 )
@@ -46,7 +46,7 @@ claimed["C07"] = (
 claimed["C08"] = (
     "fault_enumeration",
     "transcript replay by a request-gated fake server with stream faults at every byte offset; quiescence monitor for hangs; intact-delivery oracle from message boundaries",
-    "Six server transcripts (v3 and v1; serial, concurrent with emitted signals and errors, server-fatal midway, trailing messages) and ten hellos that must be refused are replayed against the real client; the server->client stream is cut with EOF / read error / garbage tail at every offset of the runtime part and (thorough) of the hello, the write side fails independently from write #j. A recovered or fatal panic, a call that has not returned when every goroutine is blocked, or a success whose work-done (hello) did not end before the cut, or that differs from the transcript, is a violation. A single flipped byte (5 masks) inside one runtime message, after which the stream ends, is judged for panics, hangs and return counts only.",
+    "Nine server transcripts (v3 and v1; serial, concurrent with emitted signals and errors, server-fatal midway, trailing messages) and ten hellos that must be refused are replayed against the real client; the server->client stream is cut with EOF / read error / garbage tail at every offset of the runtime part and (thorough) of the hello, the write side fails independently from write #j. A recovered or fatal panic, a call that has not returned when every goroutine is blocked, or a success whose work-done (hello) did not end before the cut, or that differs from the transcript, is a violation. A single flipped byte (5 masks) inside one runtime message, after which the stream ends, is judged for panics, hangs and return counts only. Flips that hit the header or an envelope key of a work-done message also decide 'no success'. Two transcripts have emitted signals whose consumers start late, and the work-start write may be delivered and then report an error while the first signal is being handed over.",
     "a broken client->server stream is modelled as the server seeing end of input and closing its output; in-payload corruption is not demanded (only an all-0xff garbage tail makes 'not intact' decidable); the SDK's 5 s close timeout is waited for in real time",
     "DESIGN.md §3 C08",
 )
